@@ -13,6 +13,8 @@
    step jumps from one scheduled height to the next. *)
 EXTENDS MC
 
+CONSTANT UpdOps     \* operations of the updates the owner may submit in between: {} (none), {1} (new version), {1, 2} (and force-push)
+
 LiveStore(d, du, r, t) ==
     [E0 EXCEPT !.kind = "Store", !.creator = Gateway, !.provider = Gateway, !.gw = Gateway, !.owner = "d1", !.signer = "d1",
                !.data = d, !.commit = d, !.cseg = <<d>>, !.op = 1, !.dur = du, !.replica = r, !.timeout = t, !.size = 1000,
@@ -39,9 +41,15 @@ TickStep == LET nx == NextScheduled(Cfg, Work(st)) IN
             /\ Quiet
 
 \* the owner and the providers act in between, at most MaxEvents times in a behaviour: a renewal, a migration (whose
-\* hand-over again nobody is obliged to complete), a termination
+\* hand-over again nobody is obliged to complete), a termination, an update or force-push (a further order that may stall), a
+\* cancellation
+LiveUpd(s) ==   \* a new version of D1 on top of the latest one (op 1) or replacing it (op 2, force-push), again with every shape
+    IF ~HasMeta(s, "D1") THEN {}
+    ELSE LET m == MetaOf(s, "D1")  nc == "c" \o ToString(s.oc) IN
+         {[LiveStore("D1", d, r, t) EXCEPT !.commit = m.commit \o "|" \o nc, !.cseg = <<m.commit, nc>>, !.op = o] :
+             o \in UpdOps, d \in Durs, r \in {1}, t \in {300}}
 ExtraStep == /\ depth < MaxEvents
-             /\ \E e \in Renews(st) \cup Migrates(st) \cup Terminates(st) :
+             /\ \E e \in Renews(st) \cup Migrates(st) \cup Terminates(st) \cup LiveUpd(st) \cup Cancels(st) :
                    LET r == Apply(Cfg, st, e) IN r.res = "ok" /\ st' = r.st
              /\ depth' = depth + 1 /\ UNCHANGED <<gh, bad, lastEv, hist>>
 
